@@ -18,6 +18,8 @@ pub struct PP {
     pub extra_fees: Option<u64>,
     /// bitmask of cost models present (bit v = plutus version key v)
     pub cost_models: u8,
+    /// which of several cost models the configuration carries for every language (0 = the usual one)
+    pub cost_variant: u8,
 }
 
 impl Default for PP {
@@ -29,24 +31,30 @@ impl Default for PP {
             coins_per_utxo_byte: 4310,
             extra_fees: Some(0),
             cost_models: 0b111,
+            cost_variant: 0,
         }
     }
 }
 
 pub fn cost_model(version: u8) -> Vec<i64> {
+    cost_model_variant(version, 0)
+}
+
+/// two configurations of one process may carry different cost models for the same language
+pub fn cost_model_variant(version: u8, variant: u8) -> Vec<i64> {
     let n = match version {
         0 => 166,
         1 => 175,
         _ => 251,
     };
-    (0..n).map(|i| (i as i64) * 7 + version as i64).collect()
+    (0..n).map(|i| (i as i64) * 7 + version as i64 + 1000 * variant as i64).collect()
 }
 
 pub fn compiler(pp: &PP) -> Compiler {
     let mut cost_models = HashMap::new();
     for v in 0..3u8 {
         if pp.cost_models & (1 << v) != 0 {
-            cost_models.insert(v, cost_model(v));
+            cost_models.insert(v, cost_model_variant(v, pp.cost_variant));
         }
     }
     let pparams = PParams {
